@@ -474,11 +474,27 @@ func keycred(c *vf.Ctx, T lattice) {
 			})
 			b := dt.ToBytes()
 			c.Check("C15/keycredential/DateTime.ToBytes/little-endian-ticks", bytes.Equal(b, le64(p)), func() string { return fmt.Sprintf("NewDateTime(%d).ToBytes()=%x want %x", p, b, le64(p)) })
+			// two encodings held at the same time (a credential serialises several timestamps): the first must survive the second
+			b2 := kcutils.NewDateTime(p ^ 0x5555).ToBytes()
+			c.Check("C15/keycredential/DateTime.ToBytes/history/earlier-result-unchanged-by-later-call", bytes.Equal(b, le64(p)) && bytes.Equal(b2, le64(p^0x5555)), func() string {
+				return fmt.Sprintf("b1 := NewDateTime(%d).ToBytes(); b2 := NewDateTime(%d).ToBytes(); now b1=%x b2=%x", p, p^0x5555, b, b2)
+			})
 		}
 		for _, v := range versions {
 			for _, src := range []key.KeySource{key.KeySource_AD, key.KeySource_AzureAD} {
 				if src != key.KeySource_AD && v >= key.KeyCredentialVersion_2 {
-					continue // "not fully supported" by the library's own comment: silent
+					// "not fully supported" by the library's own comment: what a given bit pattern MEANS there is
+					// left open, but the pair of conversions must still be mutually inverse (the property): decode,
+					// encode with the same source/version, get the same 8 bytes back
+					var back []byte
+					pn, msg, where := vf.Try(func() {
+						d := kcutils.ConvertFromBinaryTime(le64(p), src, key.KeyCredentialVersion{Value: v})
+						back = d.ToBytes()
+					})
+					c.Check("C15/keycredential/ConvertFromBinaryTime/non-AD-source-v2+/decode-then-ToBytes-reproduces-the-8-bytes", !pn && bytes.Equal(back, le64(p)), func() string {
+						return fmt.Sprintf("ConvertFromBinaryTime(%x, source=%d, version=0x%x).ToBytes() = %x (panic=%v %s %s)", le64(p), src, v, back, pn, msg, where)
+					})
+					continue
 				}
 				var d2 kcutils.DateTime
 				pn, msg, where := vf.Try(func() {
